@@ -208,3 +208,32 @@ CHECKS["C18"] = dict(
     level_text="Every fault of the stated families and every RNG outcome is executed against the real Book::getBookMove; legality is judged by an independent oracle.",
     level_note="Trusted: the oracle's legal move lists; book files larger than 8 entries and multi-byte corruptions are not covered.",
 )
+
+# ------------------------------------------------------------------------------------------ C19
+def c19_parts(tier, seed):
+    q = tier == "quick"
+    T = "c19_bookbuild"
+    return [
+        P("from-empty", T, "fast", ["--part", "empty", "--alpha", "small", "--depth", 6 if q else 8], require=["saveloads", "nontrivial"], deadline_frac=0.9),
+        P("from-empty-import", T, "seq", ["--part", "empty", "--alpha", "small", "--depth", 4 if q else 6, "--import", 1], require=["saveloads"], deadline_frac=0.9),
+        P("from-diamond", T, "seq", ["--part", "diamond", "--alpha", "small" if q else "medium", "--depth", 4 if q else 5], require=["nontrivial"], deadline_frac=0.9),
+        P("from-forced-line", T, "seq", ["--part", "forced", "--depth", 4 if q else 5], require=["states"], deadline_frac=0.9),
+    ] + ([] if q else [P("from-empty-medium", T, "seq", ["--part", "empty", "--alpha", "medium", "--depth", 6], require=["nontrivial"], deadline_frac=0.9)])
+
+CHECKS["C19"] = dict(
+    parts=c19_parts,
+    rule="states = distinct canonical book states (sorted (hash, search score, best move, pending) tuples) reached by breadth-first search over operation histories, per worker after "
+         "the split level; transitions = operations applied (each on a fresh book rebuilt from its history); a state is non-trivial when some node has >= 2 parents",
+    alphabet="add position under any node x move alphabet (e3/e4/e6/e5 [+d3/d6, Nf3/Nf6]: transpositions with equal and different path lengths), set search result x scores "
+             "{-50,0,30[,mates]} x {no non-book move (IGNORE), non-book best move, book best move}, pending mark toggle, import of 3 small game trees, save + reload; "
+             "start states: empty book, a 2/4-ply transposition diamond, a forced-move line (1.e4 f6 2.Qh5+ g6) where IGNORE results are valid",
+    oracle="from-scratch reference on the whole graph in every state: links from legal moves, depth = BFS distance, negamax, expansion costs (white/black), path errors, "
+           "parent/child symmetry; save+reload reproduces primary data and all derived values of the same history without pending marks",
+    bound=dict(quick="depth 6 from the empty book (small alphabet), depth 4 from the diamond and from the forced line", thorough="depth 8 / 5 / 5 plus medium alphabet depth 6, under the deadline"),
+    assumptions=["derived fields are excluded from the canonical key because the property says they are functions of the primary data; states merged by the key have equal futures under that assumption, "
+                 "and every state's derived values are checked against the reference before merging",
+                 "search results stay in the documented domain (IGNORE only when every legal move is a valid book node)"],
+    technique="explicit-state breadth-first search over operation histories of the real book object with canonical-state deduplication and a from-scratch reference model",
+    level_text="All operation histories up to the depth bound over the stated alphabet, from three start states, are executed on the real BookBuild::Book; every reached state is compared with a from-scratch fixed point.",
+    level_note="Trusted: the reference transcription of the header's equations; books larger than ~8 nodes are not reached.",
+)
